@@ -1,6 +1,6 @@
 """C17 -- parameter initialisation (structural clauses)."""
 from ..core import Ctx, Ob, PropSpec
-from ..rules import r1, r3, r4lite
+from ..rules import r1, r3, r4, r4lite
 
 
 def run(ctx: Ctx) -> list[Ob]:
@@ -10,6 +10,7 @@ def run(ctx: Ctx) -> list[Ob]:
     obs += [o for o in r1.r1c(ctx, r1.PARAM_REG, False) if o.construct.endswith(("compile_tensor_parameter", "compile_constant_parameter"))]
     obs += [o for o in r3.r3d(ctx) if "TorchTensorParameter" in o.construct or "tensor" in o.instance.lower()]
     obs += r4lite.init_application(ctx)
+    obs += r4.initializer_contracts(ctx)
     return obs
 
 
@@ -23,11 +24,11 @@ SPEC = PropSpec(
         "tensor parameters are keyed on everything the folder copies from the first of the group (shape, requires_grad, dtype); R4 "
         "(rank clause): because a compiled initialiser shifts non-negative axes by one (it expects the leading fold axis), every "
         "application site of an initialiser in the torch backend hands it a tensor that still has that axis (the whole tensor or a "
-        "slice t[i:i+1], never the integer index t[i])."
+        "slice t[i:i+1], never the integer index t[i]). R4i (symbolic shape + layout interpretation of dirichlet_): for destination tensors of rank 2..4 (fold axis included) and every dim, the samples are written with exactly the destination's shape for all sizes and the simplex axis -- the one they sum to one along -- sits at dim (moving it with a transposition instead of a move also displaces the last axis: a rank-3 parameter with axis 0 and two different other sizes cannot be initialised)."
     ),
     not_decided=(
         "statistical moments of the samples."
     ),
     run=run,
-    floors={"R1a": 4, "R1b": 4, "R1c": 12, "R4": 3},
+    floors={"R4i": 9, "R1a": 4, "R1b": 4, "R1c": 12, "R4": 3},
 )
